@@ -948,6 +948,18 @@ func (s *ProxyServer) processCommand(ctx context.Context, client *ProxyClient, s
 		session.sendMessage(response)
 		statsPublishersCurrent.WithLabelValues(string(cmd.StreamType)).Inc()
 		statsPublishersTotal.WithLabelValues(string(cmd.StreamType)).Inc()
+		if ctx.Err() != nil {
+			// The session was closed while the publisher was being created, so its
+			// cleanup might have run before the publisher was stored.
+			log.Printf("Session %s was closed while creating publisher %s, closing", session.PublicId(), id)
+			owned := session.DeletePublisher(publisher) != ""
+			if s.DeleteClient(id, publisher) {
+				statsPublishersCurrent.WithLabelValues(string(cmd.StreamType)).Dec()
+			}
+			if owned {
+				go publisher.Close(context.Background())
+			}
+		}
 	case "create-subscriber":
 		id := uuid.New().String()
 		publisherId := cmd.PublisherId
@@ -1051,6 +1063,18 @@ func (s *ProxyServer) processCommand(ctx context.Context, client *ProxyClient, s
 		session.sendMessage(response)
 		statsSubscribersCurrent.WithLabelValues(string(cmd.StreamType)).Inc()
 		statsSubscribersTotal.WithLabelValues(string(cmd.StreamType)).Inc()
+		if ctx.Err() != nil {
+			// The session was closed while the subscriber was being created, so its
+			// cleanup might have run before the subscriber was stored.
+			log.Printf("Session %s was closed while creating subscriber %s, closing", session.PublicId(), id)
+			owned := session.DeleteSubscriber(subscriber) != ""
+			if s.DeleteClient(id, subscriber) {
+				statsSubscribersCurrent.WithLabelValues(string(cmd.StreamType)).Dec()
+			}
+			if owned {
+				go subscriber.Close(context.Background())
+			}
+		}
 	case "delete-publisher":
 		client := s.GetClient(cmd.ClientId)
 		if client == nil {
